@@ -514,10 +514,16 @@ class SymReal:
 
     def arctan2(dy, dx):
         dx = wrap(dx)
-        h = dy.hypot(dx)
         c = ctx()
+        memo = c.__dict__.setdefault('memo', {})
+        key = ('atan2', z3.simplify(dy.t).get_id(), z3.simplify(dx.t).get_id())
+        if key in memo:
+            return memo[key][0]
+        h = dy.hypot(dx)
         c.safety.append((len(c.pc), h.t > 0, 'arctan2 of a non-zero vector'))
-        return new_atom('atan', rad_per_unit=1.0, cs=(dx.t / h.t, dy.t / h.t))
+        a = new_atom('atan', rad_per_unit=1.0, cs=(dx.t / h.t, dy.t / h.t))
+        memo[key] = (a, z3.simplify(dy.t), z3.simplify(dx.t))
+        return a
 
     def deg2rad(s): return SymReal(s.t * PI / 180)
     radians = deg2rad
